@@ -142,6 +142,17 @@ Section Steps.
   Definition erk_step (dt : F) (a : list (list F)) (b : list F) (y0 : V) : V :=
     y0 +v dt *v wsum b (erk_stages dt y0 a [Fx y0]) vzero.
 
+  (** diagonally implicit Runge-Kutta step (a, b), a in the a_im format *)
+  Fixpoint dirk_stages (dt : F) (y0 : V) (i : nat) (rows : list (list F)) (gs : list V) : list V :=
+    match rows with
+    | r :: rows' =>
+        dirk_stages dt y0 (S i) rows'
+          (gs ++ [G (Ginv (y0 +v dt *v wsum r gs vzero) (dt * nth i r 0))])
+    | [] => gs
+    end.
+  Definition dirk_step (dt : F) (a : list (list F)) (b : list F) (y0 : V) : V :=
+    y0 +v dt *v wsum b (dirk_stages dt y0 1 a [G y0]) vzero.
+
   (** explicit 2N low-storage Runge-Kutta step (Williamson form) *)
   Fixpoint ls_explicit_loop (dt : F) (be ga : list F) (h u : V) : V :=
     match be, ga with
